@@ -54,20 +54,20 @@ pub fn make(wl: &str, rng: &mut Rng, cfg: &CheckCfg, k: u64) -> Option<Scenario>
             let g = GenCfg::swarm(rng, cap, min_args(&cfg.backends), true, cfg.max_stmts);
             let prog = wgen::gen_program(rng, &g);
             let args = arg_values(rng, prog.defs[0].params.len());
-            Some(Scenario { kind: "gen".into(), prog, args, meta: vec![] })
+            Some(Scenario { kind: "gen".into(), prog, args, meta: vec![], noise: 0 })
         }
         "gen-rv" => {
             let g = GenCfg::swarm(rng, 14, 5, false, cfg.max_stmts);
             let prog = wgen::gen_program(rng, &g);
             let args = arg_values(rng, prog.defs[0].params.len());
-            Some(Scenario { kind: "gen-rv".into(), prog, args, meta: vec![] })
+            Some(Scenario { kind: "gen-rv".into(), prog, args, meta: vec![], noise: 0 })
         }
         "corpus" => {
             let c = corpus();
             let (name, p) = c.get(k as usize)?;
             let prog = from_axcut(p);
             let n = prog.defs[0].params.len();
-            Some(Scenario { kind: format!("corpus:{name}"), prog, args: vec![0; n], meta: vec![] })
+            Some(Scenario { kind: format!("corpus:{name}"), prog, args: vec![0; n], meta: vec![], noise: 0 })
         }
         "loop" => {
             let rv_too = cfg.backends.contains(&Backend::Rv);
@@ -82,7 +82,7 @@ pub fn make(wl: &str, rng: &mut Rng, cfg: &CheckCfg, k: u64) -> Option<Scenario>
             g.divrem_pct = 0;
             let prog = wgen::gen_program(rng, &g);
             let n = 1 + rng.below(64) as i64;
-            Some(Scenario { kind: "loop".into(), prog, args: vec![n], meta: vec![] })
+            Some(Scenario { kind: "loop".into(), prog, args: vec![n], meta: vec![], noise: 0 })
         }
         "loop2" => Some(make_loop2(rng, &cfg.backends)),
         "ops" => Some(make_ops(rng, &cfg.backends, false)),
@@ -445,7 +445,7 @@ pub fn make_abi(rng: &mut Rng, backends: &[Backend]) -> Scenario {
     let body = observe_all(&mut kit, ctx, pre);
     let prog = Prog { types: kit_types(), defs: vec![Def { name: Name::new("main", 0), params, body }], max_id: kit.next + 1 };
     let args = arg_values(rng, k);
-    Scenario { kind: "abi".into(), prog, args, meta: vec![] }
+    Scenario { kind: "abi".into(), prog, args, meta: vec![], noise: 0 }
 }
 
 // ---------------------------------------------------------------------------------------------
@@ -529,7 +529,7 @@ pub fn make_subst(rng: &mut Rng, backends: &[Backend]) -> Scenario {
     pre.push(Pre::Subst(map));
     let body = observe_all(&mut kit, nctx, pre);
     let prog = Prog { types: kit_types(), defs: vec![Def { name: Name::new("main", 0), params: vec![], body }], max_id: kit.next + 1 };
-    Scenario { kind: "subst".into(), prog, args: vec![], meta: vec![at] }
+    Scenario { kind: "subst".into(), prog, args: vec![], meta: vec![at], noise: 0 }
 }
 
 /// the C11 oracle over the two snapshots around the (last) substitution that introduces `nw` names
@@ -858,7 +858,7 @@ pub fn make_loop2(rng: &mut Rng, backends: &[Backend]) -> Scenario {
         max_id: kit.next + 1,
     };
     let n = 2 + rng.below(40) as i64;
-    Scenario { kind: "loop".into(), prog, args: vec![n], meta: vec![] }
+    Scenario { kind: "loop".into(), prog, args: vec![n], meta: vec![], noise: 0 }
 }
 
 // ---------------------------------------------------------------------------------------------
@@ -890,7 +890,7 @@ pub fn make_pipe(rng: &mut Rng, print_free: bool, size: usize) -> Option<Scenari
     })
     .ok()??;
     let prog: Prog = serde_json::from_str(&json).ok()?;
-    Some(Scenario { kind: "pipe".into(), prog, args: fp.args, meta: vec![] })
+    Some(Scenario { kind: "pipe".into(), prog, args: fp.args, meta: vec![], noise: 0 })
 }
 
 // ---------------------------------------------------------------------------------------------
@@ -981,7 +981,7 @@ pub fn make_ops(rng: &mut Rng, backends: &[Backend], print_free: bool) -> Scenar
     }
     let prog = Prog { types: kit_types(), defs: vec![Def { name: Name::new("main", 0), params, body }], max_id: kit.next + 1 };
     let args = (0..k).map(|_| { let v = rng.range(-40, 90); if v == 0 { 9 } else { v } }).collect();
-    Scenario { kind: "ops".into(), prog, args, meta: vec![] }
+    Scenario { kind: "ops".into(), prog, args, meta: vec![], noise: 0 }
 }
 
 enum Stmt0 {
